@@ -192,8 +192,38 @@ def match(p, n, env) -> bool:
     return True
 
 
+_MODEL = None
+import os as _os
+
+
+def set_model(m):
+    """With a model set, a pattern that matches nowhere in a function of the model
+    is tried on the function's normal forms as well (private helpers inlined; then
+    locals propagated, fill loops as comprehensions): an anchor written for today's
+    text is still found after 'extract helper' / 'hoist local' refactorings."""
+    global _MODEL
+    _MODEL = m
+
+
 def find(root, pattern: str, env0=None) -> list[dict]:
     """all matches of pattern among the descendants of root (root included)"""
+    out = _find(root, pattern, env0)
+    if out or _MODEL is None or _os.environ.get("PTA_FIND_FALLBACK", "0") != "1" \
+            or not isinstance(root, (ast.FunctionDef, ast.AsyncFunctionDef)) \
+            or getattr(root, "_derived", False) or not hasattr(root, "_parent"):
+        return out
+    for form in (_MODEL.inlined, _MODEL.normal):
+        try:
+            alt = form(root)
+        except Exception:       # a form that cannot be built is simply not tried
+            continue
+        out = _find(alt, pattern, env0)
+        if out:
+            return out
+    return out
+
+
+def _find(root, pattern: str, env0=None) -> list[dict]:
     kind, pat = compile_pat(pattern)
     out = []
     if kind == "expr":
